@@ -113,7 +113,14 @@ func (s *EternalSource) Run() {
 
 		s.logger.Debug("calling sourceFromRefFactory", zap.Stringer("last_processed_block", lastProcessedBlockRef))
 		src := s.sourceFromRefFactory(lastProcessedBlockRef, handler)
-		s.currentSource = src // we'll lock you some day
+		if err := s.LockedInit(func() error {
+			s.currentSource = src
+			return nil
+		}); err != nil {
+			// shut down while the source was being created: the termination callback did not see it
+			src.Shutdown(s.Err())
+			return
+		}
 		src.Run()
 
 		<-src.Terminating()
